@@ -30,7 +30,7 @@ FAMILIES = [
     ("hook.", ["lifecycle_basic", "dd_cycles"]),
     ("has_path.", ["dd_cycles", "dd_no_residue", "dd_cycle_first_edge_parked"]),
     ("wait_for_guard.", ["dd_no_residue", "dd_cycles"]),
-    ("drop_body.", ["dd_no_residue"]),
+    ("framework.no_unexpected_panic", ["ask_reply_integrity", "kill_preempt", "dd_no_residue"]),
     ("mutex.", ["dd_cycles"]),
     ("panic_site.", ["dd_cycles", "dd_no_residue"]),
 ]
